@@ -70,6 +70,30 @@ Proof.
 Qed.
 Print Assumptions c06_shownet_stale_free_partial.
 
+(* the guard, syntactically: `sn_syn d st` is a boolean over the datagram's own fields, in the handler's test
+   order (n <= 6; type; indexBlock[0] received and >= 11; indexBlock[1] received; enc_len >= 1 and netSlot <> 0;
+   not beyond the lenient bound n + 1255; slotSize <> 0; a handler exists; 47 + data_offset + enc_len <= n).
+   It implies sn_within; conversely sn_within implies its header part `sn_hdr` (all of the above except the
+   last conjunct).  The gap between the two is the data stage only: an RLE stream that stops early, or a
+   SetRange that clamps its copy, may leave the unreceived part of a claimed block unread. *)
+Theorem c06_shownet_guard_syntactic : forall d st,
+  bytes_ok d = true -> len d <= 1316 ->
+  (sn_syn d st = true -> sn_within d st = true) /\ (sn_within d st = true -> sn_hdr d st = true).
+Proof. intros d st Hb Hn. split; [apply sn_syn_within|apply sn_within_hdr]; auto. Qed.
+Print Assumptions c06_shownet_guard_syntactic.
+
+Theorem c06_shownet_syntactic_partial : forall d t1 t2 st,
+  bytes_ok d = true -> len d <= 1316 -> sn_syn d st = true ->
+  run (d ++ t1) (shownet_handle (len d) st) <> Hazard Oob /\
+  run (d ++ t1) (shownet_handle (len d) st) = run (d ++ t2) (shownet_handle (len d) st).
+Proof.
+  intros d t1 t2 st Hb Hn Hs. pose proof (sn_syn_within d st Hb Hn Hs) as H.
+  unfold sn_within, completes in H.
+  destruct (run d (shownet_handle (len d) st)) as [a|h] eqn:E; [|discriminate].
+  rewrite (run_app_mono _ _ t1 _ E), (run_app_mono _ _ t2 _ E). split; [discriminate|reflexivity].
+Qed.
+Print Assumptions c06_shownet_syntactic_partial.
+
 (* the handler with the proposed fix (fixes-needing-test-edit/01): all clauses, every datagram *)
 Theorem c06_shownet_proposedfix_safe : forall buf n st h,
   bytes_ok buf = true -> len buf = 1316 -> n <= len buf ->
@@ -100,3 +124,6 @@ Example ex_shownet_handled :
 Proof. vm_compute. split; reflexivity. Qed.
 Example ex_shownet_outside : sn_within sn_short [(0, None)] = false /\ sn_within sn_over [(0, None)] = false.
 Proof. vm_compute. split; reflexivity. Qed.
+Example ex_shownet_syn : sn_syn sn_good [(0, None)] = true /\ sn_syn sn_short [(0, None)] = false /\
+  sn_hdr sn_short [(0, None)] = true /\ sn_syn sn_over [(0, None)] = false.
+Proof. vm_compute. repeat split; reflexivity. Qed.
